@@ -458,10 +458,34 @@ func (fr *Frame) applyContract(fc *FuncContract, name, short string, ord int, si
 		g.typeFacts(r, st)
 	}
 	post := &Env{g: g, vars: env.vars, st: st, old: pre, pkg: tpkg}
-	for _, c := range fc.Ensures {
+	for ci, c := range fc.Ensures {
+		if c.Assumed {
+			g.trusted[fmt.Sprintf("assumed postcondition [%s] of %s: %s", c.Label, short, c.Src)] = true
+		}
 		t, err := post.EvalBool(c.E)
 		if err != nil {
 			panic(contractErr{fmt.Sprintf("contract of %s (%s:%d): ensures: %v", short, c.File, c.Line, err)})
+		}
+		// a postcondition with a listed known finding is NOT a fact inside the finding's region: callers may use it
+		// only outside (no region given: not at all)
+		lbl := c.Label
+		if lbl == "" {
+			lbl = fmt.Sprint(ci + 1)
+		}
+		if region, listed := g.P.findingRegions[short+"#ensures["+lbl+"]"]; listed {
+			if region == "" {
+				continue
+			}
+			re, perr := parseExprString(region)
+			if perr != nil {
+				continue
+			}
+			rt, rerr := env.EvalBool(re)
+			if rerr != nil {
+				continue
+			}
+			g.assume(sImp(reach, sImp(sNot(rt), t)))
+			continue
 		}
 		g.assume(sImp(reach, t))
 	}
